@@ -53,6 +53,13 @@ func (s *sim) genBoot() Action {
 	default:
 		a.OneShell = r.Chance(1, 8)
 	}
+	// the broker's event loop gets to run late (late.go)
+	l1, l2 := r.Chance(1, 3), r.Chance(1, 8)
+	if a.OneShell {
+		a.LateIOB = l1
+	} else {
+		a.LateIOB = l2
+	}
 	return a
 }
 
@@ -87,7 +94,7 @@ func (s *sim) generate() (Action, bool) {
 	}
 	prof := s.cfg.Profile
 	w := map[string]int{"boot": 100, "stop": 3, "get_c": 10, "tmpl": 4, "run_script": 6, "open": 6, "bad": 3, "line": 8, "out": 8, "close": 4, "sleep": 3, "del_cache": 1, "probe": 2, "io": 2, "burst": 2, "regen": 1, "pre": 2, "chain": 1, "resetl": 2,
-		"flood": 1, "early": 1, "damage": 10, "linkpre": 15}
+		"flood": 1, "early": 1, "damage": 10, "linkpre": 15, "start_iob": 3, "long": 2, "squeeze": 0}
 	switch prof {
 	case "C05":
 		w["stop"], w["get_c"], w["run_script"], w["close"], w["del_cache"], w["regen"], w["chain"] = 8, 12, 8, 8, 2, 3, 4
@@ -97,6 +104,9 @@ func (s *sim) generate() (Action, bool) {
 	case "C07":
 		w["get_c"], w["tmpl"], w["run_script"], w["stop"], w["burst"] = 30, 12, 8, 2, 8
 		w["linkpre"] = 60
+		w["squeeze"] = 3
+	case "C01":
+		w["long"], w["bad"], w["open"] = 6, 8, 8
 	case "C03":
 		w["io"], w["out"], w["flood"] = 5, 12, 5
 	case "C11":
@@ -109,6 +119,26 @@ func (s *sim) generate() (Action, bool) {
 	}
 	add(s.genBoot(), w["boot"])
 	add(Action{K: "stop"}, w["stop"])
+	if b := s.boot; b != nil && !b.iobStarted {
+		switch {
+		case b.goneFull > 0: // a whole shell has come and gone unseen by the event loop
+			add(Action{K: "start_iob"}, 40)
+		case b.ready > 0:
+			add(Action{K: "start_iob"}, w["start_iob"]+1)
+		default:
+			add(Action{K: "start_iob"}, w["start_iob"])
+		}
+	}
+	if b := s.boot; b != nil && b.tmplOn {
+		// /c with few descriptors to spare and no garbage collection (squeeze.go)
+		m := []int{32, 40, 64}[r.Intn(3)]
+		sq := Action{K: "squeeze_c", Margin: m, N: m + r.Range(8, 40)}
+		if s.tmplState == "valid" || s.tmplState == "empty" {
+			add(sq, w["squeeze"])
+		} else {
+			add(sq, w["squeeze"]/4)
+		}
+	}
 	add(s.genGetC(), w["get_c"])
 	kinds := []string{"valid", "valid", "valid", "unparsable", "execfail", "empty", "missing", "dir"}
 	s.tmplSerial++
@@ -163,6 +193,11 @@ func (s *sim) generate() (Action, bool) {
 		} else {
 			add(Action{K: "open_out", S: len(s.sess), ID: id, N: r.Intn(3)}, w["open"])
 		}
+		// IDs far longer than the ones the scripts carry: the attempts refused
+		// later on are made with IDs that differ from them in one place only
+		long := []int{65, 66, 96, 129, 130, 200, 257, 300, 520}[r.Intn(9)]
+		lk := []string{"open_in", "open_out"}[r.Intn(2)]
+		add(Action{K: lk, S: len(s.sess), ID: id, N: r.Intn(3), Long: long}, w["long"])
 		add(Action{K: "open_io", S: len(s.sess)}, w["io"])
 		// a shell that is busy from the first instant: output follows the request at once
 		add(flood(Action{K: "open_io", S: len(s.sess)}), w["flood"])
@@ -194,7 +229,13 @@ func (s *sim) generate() (Action, bool) {
 		has := live.in != nil || live.out != nil || live.io != nil
 		if has {
 			k := []string{"open_in", "open_out", "open_io"}[r.Intn(3)]
-			badID := []string{"$livex", "$live^", "$live<"}[r.Intn(3)] // resolved when applied: the live session's ID plus a suffix, in the other case, or cut short
+			badID := []string{"$livex", "$live^", "$live<", "$live~"}[r.Intn(4)] // resolved when applied: the live session's ID plus a suffix, in the other case, cut short, or with another first byte
+			if other := r.Chance(1, 2); other && live.io == nil && (live.in == nil) != (live.out == nil) {
+				// the half the shell is still waiting for, under a related ID
+				if k = "open_in"; live.in != nil {
+					k = "open_out"
+				}
+			}
 			if r.Chance(1, 2) && (live.io != nil || k == "open_in" && live.in != nil || k == "open_out" && live.out != nil) {
 				badID = "$live" // same ID, but that half is taken
 			}
